@@ -14,7 +14,7 @@ commands (one per line):
   C           close fds 0,1,2                      -> ack 'c'
   X <n>       os._exit(n)                          (no ack)
   K <sig>     os.kill(self, sig)                   (ack 'k' if still alive)
-  D <sig> <dir>  like K, but first allows a (tiny) core file and changes to <dir>: a core-dumping signal then sets the
+  D <sig> <dir>  like K, but first allows a core file (up to 64 MB, written into <dir>) and changes to <dir>: a core-dumping signal then sets the
               'core dumped' bit of the wait status
   R           report bytes read from fd 0 so far   -> ack 'r <hex>'
   N           number of bytes read so far          -> ack 'n <count> <eof>'
@@ -128,7 +128,8 @@ def main():
                 try:
                     import resource
                     hard = resource.getrlimit(resource.RLIMIT_CORE)[1]
-                    want = 65536 if hard == resource.RLIM_INFINITY else min(65536, hard)
+                    # (a truncated dump does not count as one: the limit must hold the whole image, a few megabytes)
+                    want = (64 << 20) if hard == resource.RLIM_INFINITY else min(64 << 20, hard)
                     resource.setrlimit(resource.RLIMIT_CORE, (want, hard))
                     os.chdir(a[1])
                 except Exception:
